@@ -350,7 +350,7 @@ GLOBAL_ASSUMPTIONS = [
     'assumed contracts of slice::sort (i32: ascending permutation), the two sort_by call forms (R13), f32::clamp, String == str',
     'machine integers are NOT treated as mathematical: every + - * / % and narrowing is checked for overflow by Verus',
     'the extracted text is checked by Verus\'s rustc 1.98.1 front end; the repository builds with its own stable toolchain (same source text)',
-    'rewrites R1 (call through the instruction table -> wrapper, A-dispatch), R2 (rand imports -> stub module with assumed contracts), R3 (for+continue desugaring), R4 (compound assignment expansion), R5 (reference patterns), R6 (reference comparison), R7 (`as f32` / `f32 as usize` / `as i32` of a float / f32 constants -> wrapper functions whose bodies are the original expressions; results uninterpreted), R8 (a new pure straight-line helper is verified inlined at its call sites), R9 (iterator adapters enumerate / rev().enumerate() / fold / filter+count / position / for_each / retain / keys().cloned().collect() / HashMap iter_mut replaced by the loops they stand for: ASSUMES std\'s documented semantics of those adapters; tools/selftest_rewrites.sh runs the repository\'s tests on the rewritten text, the bounded Kani harnesses run the original adapters), R14 (f32 `iter().sum()` -> left-to-right loop from std\'s empty sum: ASSUMED order, cross-checked by the bounded Kani harness b_c09_float_vector_sum), R13 (the two `sort_by` call forms -> wrappers with ASSUMED contracts), R12 (`println!` statements dropped), R11 (`x.to_string()` of an indexed element / reference parameter -> wrapper whose result is an uninterpreted function of the value: ASSUMES the Display impls are pure), DETRAIT are applied mechanically; counts under coverage.extraction; see DESIGN.md I.2',
+    'rewrites R1 (call through the instruction table -> wrapper, A-dispatch), R2 (rand imports -> stub module with assumed contracts), R3 (for+continue desugaring), R4 (compound assignment expansion), R5 (reference patterns), R6 (reference comparison), R7 (`as f32` / `f32 as usize` / `as i32` of a float / f32 constants -> wrapper functions whose bodies are the original expressions; results uninterpreted), R8 (a new pure straight-line helper is verified inlined at its call sites), R9 (iterator adapters enumerate / rev().enumerate() / fold / filter+count / position / for_each / retain / keys().cloned().collect() / HashMap iter_mut replaced by the loops they stand for: ASSUMES std\'s documented semantics of those adapters; tools/selftest_rewrites.sh runs the repository\'s tests on the rewritten text, the bounded Kani harnesses run the original adapters), R15 (the parser\'s str operations -> wrappers with uninterpreted results; ASSUMES an ASCII prefix of n bytes puts a char boundary at offset n), R14 (f32 `iter().sum()` -> left-to-right loop from std\'s empty sum: ASSUMED order, cross-checked by the bounded Kani harness b_c09_float_vector_sum), R13 (the two `sort_by` call forms -> wrappers with ASSUMED contracts), R12 (`println!` statements dropped), R11 (`x.to_string()` of an indexed element / reference parameter -> wrapper whose result is an uninterpreted function of the value: ASSUMES the Display impls are pure), DETRAIT are applied mechanically; counts under coverage.extraction; see DESIGN.md I.2',
 ]
 
 
